@@ -246,6 +246,16 @@ def run_case(case, ctx):
                     if not ok:
                         ctx.fail(f"{sig}/layout/{tag}/{kind}_differs_from_all_flags_call")
             ctx.count("flag_combinations_checked", len(flagset))
+            # flags left out take their documented default (False): no flag -> the bare value, one flag -> that extra only
+            names = ["return_tail_probs", "return_expected", "return_expected_set", "return_calculator"]
+            r0 = pyhf.infer.hypotest(mu, data, model, **kw)
+            if isinstance(r0, (tuple, list)) or not _same(_f(r0), vals["main"]):
+                ctx.fail(f"{sig}/layout/defaults/bare_value_expected", got=type(r0).__name__)
+            if case["backend"] != "tensorflow":
+                for i, nm in enumerate(names):
+                    r1 = pyhf.infer.hypotest(mu, data, model, **{nm: True}, **kw)
+                    if not isinstance(r1, tuple) or len(r1) != 2:
+                        ctx.fail(f"{sig}/layout/defaults/only_{nm}", got=len(r1) if isinstance(r1, tuple) else -1)
         # ---- ranges ---------------------------------------------------------------------------------------
         for nm, v in [("main", vals["main"]), ("median", vals["median"])] + [("tail", t) for t in vals["tails"]] + [("band", b) for b in vals["band"]]:
             if case["toys"]:
